@@ -295,7 +295,89 @@ func counterIncrement(st ssa.Instruction) bool {
 	return ok && ld.X == s.Addr
 }
 
+// c01cOneCounter: all the ids of a script come from one counter. The chunk makers take the counter
+// as a *int; what they are handed is the counter their caller was handed, or — where the chain
+// starts — the address of a local int that is set to a constant and otherwise only incremented.
+// Through a counter pointer nothing but `*p++` is ever written.
+func c01cOneCounter(c *Ctx) {
+	isIntPtr := func(t types.Type) bool {
+		p, ok := t.Underlying().(*types.Pointer)
+		if !ok {
+			return false
+		}
+		b, ok := p.Elem().Underlying().(*types.Basic)
+		return ok && b.Kind() == types.Int
+	}
+	nHand, nRoots, nWrites := 0, 0, 0
+	for _, fn := range c.W.FuncsOf("emitter") {
+		if isTestFunc(c.W, fn) || len(fn.Blocks) == 0 {
+			continue
+		}
+		var own *ssa.Parameter
+		for _, p := range fn.Params {
+			if isIntPtr(p.Type()) {
+				own = p
+			}
+		}
+		// writes through the counter
+		if own != nil && own.Referrers() != nil {
+			for _, r := range *own.Referrers() {
+				if st, ok := r.(*ssa.Store); ok && st.Addr == ssa.Value(own) {
+					nWrites++
+					c.Check(counterIncrement(st), fmt.Sprintf("one-counter/%s/only-incremented#%d", c.W.FuncKey(fn), nWrites), c.W.Pos(st.Pos()), "the counter is incremented by one", c.W.FuncKey(fn)+" writes "+pretty(c.term(fn, st.Val))+" through the chunk counter: the counter only ever goes up by one, else two chunks could get the same id")
+				}
+			}
+		}
+		var roots []*ssa.Alloc
+		for _, ci := range callsIn(fn) {
+			g := callee(ci)
+			if g == nil || !c.W.InRepo(g) || c.W.PkgShort(g) != "emitter" {
+				continue
+			}
+			for _, a := range ci.Common().Args {
+				if !isIntPtr(a.Type()) {
+					continue
+				}
+				nHand++
+				key := fmt.Sprintf("one-counter/%s->%s@%d", fn.Name(), g.Name(), c.T(fn).callOrd[ci])
+				if own != nil {
+					c.Check(a == ssa.Value(own), key, c.W.Pos(ci.Pos()), "the counter that was handed in is handed on", fn.Name()+" hands "+pretty(c.term(fn, a))+" to "+g.Name()+" as the chunk counter instead of the counter it was given: ids would be drawn from two sources and could collide")
+					continue
+				}
+				al, isA := a.(*ssa.Alloc)
+				c.Check(isA, key, c.W.Pos(ci.Pos()), "the counter is a local of the function that lowers the script", fn.Name()+" hands "+pretty(c.term(fn, a))+" to "+g.Name()+" as the chunk counter: expected the address of its local counter")
+				if isA {
+					seen := false
+					for _, r := range roots {
+						if r == al {
+							seen = true
+						}
+					}
+					if !seen {
+						roots = append(roots, al)
+					}
+				}
+			}
+		}
+		if own == nil && len(roots) > 0 {
+			nRoots++
+			c.Check(len(roots) == 1, "one-counter/"+c.W.FuncKey(fn)+"/single", c.W.FuncPos(fn), "one counter per script", fmt.Sprintf("%s hands %d different local counters to the chunk makers", fn.Name(), len(roots)))
+			for _, r := range *roots[0].Referrers() {
+				st, ok := r.(*ssa.Store)
+				if !ok || st.Addr != ssa.Value(roots[0]) {
+					continue
+				}
+				_, isC := st.Val.(*ssa.Const)
+				nWrites++
+				c.Check(isC || counterIncrement(st), fmt.Sprintf("one-counter/%s/only-incremented#%d", c.W.FuncKey(fn), nWrites), c.W.Pos(st.Pos()), "the counter starts at a constant and is only incremented", fn.Name()+" sets its chunk counter to "+pretty(c.term(fn, st.Val)))
+			}
+		}
+	}
+	c.Check(nHand >= 15 && nRoots >= 1 && nWrites >= 10, "one-counter/census", "-", fmt.Sprintf("%d hand-overs of the counter from %d script lowerer(s), %d writes through it", nHand, nRoots, nWrites), fmt.Sprintf("only %d hand-overs of the counter, %d starting points, %d writes found", nHand, nRoots, nWrites))
+}
+
 func c01c(c *Ctx) {
+	c01cOneCounter(c)
 	for _, fn := range c.W.FuncsOf("emitter") {
 		infos := c.chunkAllocs(fn)
 		if len(infos) == 0 {
